@@ -1,5 +1,162 @@
 package c20
 
-import "verif/mc/ev"
+// Secondary, NON-deciding smoke: one writer goroutine and several reader goroutines run freely on one real
+// ChainStorage. Hand-offs through the explorer are happens-before edges that would blind the race detector, so this
+// pass has none: readers only check what a reader can check locally (alignment, contiguity, deep hash of a held view
+// unchanged after the writer made progress). When the test binary is built with -race (C20_RACE=1 go test -race
+// -run TestRaceSmoke) the detector watches the same run; bin/check builds without -race.
 
-func raceSmoke(r *ev.Run) {}
+import (
+	"context"
+	"os"
+	"os/exec"
+	"strings"
+	"sync"
+	"sync/atomic"
+	"testing"
+	"time"
+
+	"verif/mc/ev"
+
+	"github.com/NethermindEth/juno/sync/preconfirmed"
+)
+
+func raceBody(r *ev.Run, rounds int) (views, changed int64) {
+	w := newWorld()
+	var stop atomic.Bool
+	var wg sync.WaitGroup
+	var nviews, nchanged atomic.Int64
+	script := []op{
+		{Kind: 'F', Slot: 3, ID: 0, Count: 1}, {Kind: 'D', Slot: 3, ID: 0, Count: 1, Cls: true}, {Kind: 'F', Slot: 4, ID: 1, Count: 2, Cls: true},
+		{Kind: 'N', Slot: 4, Cls: true, Extra: true}, {Kind: 'F', Slot: 5, ID: 0, Count: 0}, {Kind: 'D', Slot: 5, ID: 0, Count: 0},
+		{Kind: 'F', Slot: 4, ID: 0, Count: 1}, {Kind: 'F', Slot: 5, ID: 1, Count: 2}, {Kind: 'A', Slot: 4}, {Kind: 'D', Slot: 5, ID: 1, Count: 2},
+		{Kind: 'A', Slot: 7}, {Kind: 'A', Slot: 3},
+	}
+	for g := 0; g < 3; g++ {
+		wg.Add(1)
+		go func(g int) {
+			defer wg.Done()
+			var held []root
+			for !stop.Load() {
+				q := uint64(3 + g)
+				v := w.st.SnapshotForBlock(q)
+				nviews.Add(1)
+				if _, ok := checkLocal(&v, q); !ok {
+					r.Violate("free-running: view not aligned / not contiguous", map[string]any{"asked": q, "view": describe(&v)})
+				}
+				if v.Length() > 0 && len(held) < 64 {
+					held = append(held, root{view: v, dig: viewDigest(&v, pass{})})
+				}
+				for i := range held {
+					if viewDigest(&held[i].view, pass{}) != held[i].dig {
+						nchanged.Add(1)
+						r.Violate("free-running: held view changed", map[string]any{"view": describe(&held[i].view)})
+						held[i].dig = viewDigest(&held[i].view, pass{})
+					}
+				}
+				if len(held) == 64 {
+					held = held[:0]
+				}
+			}
+		}(g)
+	}
+	for i := 0; i < rounds; i++ {
+		for _, o := range script {
+			w.apply(o)
+		}
+	}
+	stop.Store(true)
+	wg.Wait()
+	return nviews.Load(), nchanged.Load()
+}
+
+func checkLocal(v *preconfirmed.ChainReader, asked uint64) (n int, ok bool) {
+	want := asked
+	for e := range v.OldestFirst() {
+		if e == nil || e.Block == nil || e.Block.Number != want {
+			return n, false
+		}
+		want++
+		n++
+	}
+	return n, n == v.Length()
+}
+
+func raceSmoke(r *ev.Run) {
+	views, _ := raceBody(r, ev.Pick(r, 150, 1500))
+	r.Set("smoke_free_running_reader_snapshots", views)
+	r.Set("smoke_race_detector_pass", raceSubprocess(r))
+}
+
+// raceSubprocess builds this package with -race (works offline in this sandbox: ~20 s) and runs TestRaceSmoke in
+// it. Build problems are reported in the evidence, never as a violation.
+func raceSubprocess(r *ev.Run) string {
+	if os.Getenv("C20_NO_RACE") != "" {
+		return "skipped (C20_NO_RACE)"
+	}
+	suf := ""
+	args := []string{"test", "-race", "-c", "-vet=off", "-tags", "verif"}
+	if repo := os.Getenv("VERIF_REPO"); repo != "" && repo != "/repo" {
+		var b strings.Builder
+		for _, c := range repo + "\n" {
+			if (c >= 'A' && c <= 'Z') || (c >= 'a' && c <= 'z') || (c >= '0' && c <= '9') {
+				b.WriteRune(c)
+			} else {
+				b.WriteByte('_')
+			}
+		}
+		suf = "." + b.String()
+		args = append(args, "-modfile=/verif/build/go"+suf+".mod")
+	}
+	bin := "/verif/build/c20" + suf + ".race.test"
+	args = append(args, "-o", bin, "./props/c20")
+	ctx, cancel := context.WithTimeout(context.Background(), 240*time.Second)
+	defer cancel()
+	build := exec.CommandContext(ctx, "go", args...)
+	build.Dir = "/verif/mc"
+	if out, err := build.CombinedOutput(); err != nil {
+		tail := string(out)
+		if len(tail) > 300 {
+			tail = tail[len(tail)-300:]
+		}
+		return "skipped: -race build failed: " + err.Error() + " " + tail
+	}
+	run := exec.CommandContext(ctx, bin, "-test.run", "^TestRaceSmoke$", "-test.v")
+	run.Dir = "/verif/mc/props/c20"
+	out, err := run.CombinedOutput()
+	text := string(out)
+	if strings.Contains(text, "DATA RACE") {
+		i := strings.Index(text, "DATA RACE")
+		end := i + 1500
+		if end > len(text) {
+			end = len(text)
+		}
+		r.Violate("free-running: data race reported by the race detector", map[string]any{"report": text[i:end]})
+		return "DATA RACE reported"
+	}
+	if err != nil {
+		if len(text) > 600 {
+			text = text[len(text)-600:]
+		}
+		r.Violate("free-running: race-detector pass failed", map[string]any{"err": err.Error(), "output": text})
+		return "failed"
+	}
+	if i := strings.Index(text, "free-running smoke:"); i >= 0 {
+		line := text[i:]
+		if j := strings.IndexByte(line, '\n'); j > 0 {
+			line = line[:j]
+		}
+		return "clean; " + line
+	}
+	return "clean"
+}
+
+// TestRaceSmoke is the entry point for a -race build: `go test -race -tags verif -run TestRaceSmoke ./props/c20`.
+func TestRaceSmoke(t *testing.T) {
+	r := ev.Start("C20", "model_checking")
+	views, changed := raceBody(r, 400)
+	if r.Violations() > 0 || changed > 0 {
+		t.Fatalf("free-running smoke: %d violations", r.Violations())
+	}
+	t.Logf("free-running smoke: %d reader snapshots, race detector enabled: %v", views, raceEnabled)
+}
